@@ -68,11 +68,13 @@ static void check_point(GridCtx & gc, const std::string & name, int level, int m
     grid_fail(cx, name, level, mode, "none", "genbbsub", pa == 1 ? "accepts-what-rules-forbid" : "rejects-what-rules-allow", std::string("genbbsub ") + (pa == 1 ? "accepts" : "rejects (" + why + ")") + " but reference ier=" + std::to_string(rier) + (mode == 20 && level > 0 ? " and README restricts mode 20 to the ground state" : ""));
   cx.rep.nt("p|" + name + "|" + std::to_string(level) + "|" + std::to_string(mode));
   // ---- porcelain, four window kinds
-  static const char * wk[] = {"none", "valid", "inverted", "equal", "beyond-e0"};
+  static const char * wk[] = {"none", "valid", "inverted", "equal", "beyond-e0", "emin-only", "emax-only"};
   double e0 = e0_of(name, level, mode); if (!(e0 > 0)) e0 = 1.0;
   double lo = 0.2 * e0, hi = 0.8 * e0;
-  for (int w = 0; w < 5; w++) {
+  for (int w = 0; w < 7; w++) {
     Cfg c; c.kind = "dbd"; c.name = name; c.level = level; c.mode = mode;
+    if (w == 5) { c.win = true; c.emin = lo; c.emax = std::numeric_limits<double>::quiet_NaN(); }   // one-sided windows (C++ API: the other bound stays NaN)
+    if (w == 6) { c.win = true; c.emin = std::numeric_limits<double>::quiet_NaN(); c.emax = hi; }
     if (w == 1) { c.win = true; c.emin = lo; c.emax = hi; }
     if (w == 2) { c.win = true; c.emin = hi; c.emax = lo; }
     if (w == 3) { c.win = true; c.emin = lo; c.emax = lo; }
@@ -85,7 +87,7 @@ static void check_point(GridCtx & gc, const std::string & name, int level, int m
     else if (legacy) {
       expect = expect_plumb; rule = "reference ier=" + std::to_string(rier);
       if (c.win && !capable) { expect = false; rule += "; window on a mode that does not support one"; }
-      if (c.win && capable && !(c.emin < c.emax)) { expect = false; rule += "; window with min >= max"; }
+      if (c.win && capable && w <= 4 && !(c.emin < c.emax)) { expect = false; rule += "; window with min >= max"; }
       if (w == 4 && capable) { expect = false; rule += "; window entirely above the available energy"; }
     } else if (mode >= 21 && mode <= 24) {
       expect = published && ga_isotope(name) && level == 0 && !c.win; rule = "gA modes only for Se82/Mo100/Cd116/Nd150 ground states";
